@@ -160,6 +160,90 @@ class C07World(SrcWorld):
 from cfdppy.filestore import NativeFilestore  # noqa: E402
 
 
+class FlakyReadFs(NativeFilestore):
+    """Native filestore whose next read_data / calculate_checksum can fail once (a documented answer of a filestore)."""
+
+    def __init__(self):
+        super().__init__()
+        self.fail_read = False
+        self.fail_cks = False
+        self.fired = None
+
+    def read_data(self, file, offset, read_len=None):
+        if self.fail_read:
+            self.fail_read = False
+            self.fired = "read_data"
+            raise PermissionError(f"xmc: injected read failure for {file}")
+        return super().read_data(file, offset, read_len)
+
+    def calculate_checksum(self, checksum_type, file_path, size_to_verify, segment_len=4096):
+        if self.fail_cks:
+            self.fail_cks = False
+            self.fired = "calculate_checksum"
+            raise PermissionError(f"xmc: injected checksum read failure for {file_path}")
+        return super().calculate_checksum(checksum_type, file_path, size_to_verify, segment_len)
+
+
+def _make_flaky_fs():
+    return FlakyReadFs()
+
+
+class C07Flaky(C07World):
+    """The source filestore fails one read (file data or checksum calculation) at any point: the failing call may raise,
+    but the stream resumes exactly where it was - nothing skipped, nothing repeated."""
+
+    name = "SRC-C07-FLAKY"
+    ARM = {"readfail": "fail_read", "cksfail": "fail_cks"}
+
+    def make_vfs(self):
+        return _make_flaky_fs()
+
+    def init_model(self, st):
+        st.m = {"stream": [], "covered": 0, "faults_left": self.cfg.get("read_faults", 1)}
+
+    def enabled(self, st):
+        evs = super().enabled(st)
+        vfs = st.S.user.vfs
+        if st.m["faults_left"] > 0 and not vfs.fail_read and not vfs.fail_cks and st.S.h.state.name == "BUSY" and "EOF" not in st.m["stream"]:
+            evs = evs + [("readfail",), ("cksfail",)]
+        return evs
+
+    def apply(self, st, ev):
+        vfs = st.S.user.vfs
+        if ev[0] in self.ARM:
+            setattr(vfs, self.ARM[ev[0]], True)
+            m = dict(st.m)
+            m["faults_left"] -= 1
+            st.m = m
+            step = st.S.h.states.step.name
+            return {"armed": ev[0], "pre_step": step, "post_step": step}
+        vfs.fired = None
+        out = super().apply(st, ev)
+        if vfs.fired:
+            out["fired"] = vfs.fired
+            vfs.fired = None
+        return out
+
+    def update_model(self, st, ev, out):
+        left = st.m["faults_left"]
+        super().update_model(st, ev, out)
+        st.m = dict(st.m, faults_left=left)
+
+    def quiet(self, obs):
+        return "armed" not in obs and "fired" not in obs and super().quiet(obs)
+
+    def check(self, st, ev, out):
+        if "armed" in out:
+            return []
+        v = super().check(st, ev, out)
+        if out.get("fired"):
+            # the injected failure may surface as an exception of this call; everything else is judged as usual
+            v = [x for x in v if x["clause"] != "C07.exception"]
+            if self.emitted(out, "EOF") and out["fired"] == "calculate_checksum":
+                v.append(Violation(P, "C07.eof", f"{ev}: EOF PDU emitted although the checksum calculation failed in this call", field="checksum"))
+        return v
+
+
 class HugeFs(NativeFilestore):
     """reports a 2^32+5 byte file whose bytes are a function of the offset"""
 
@@ -313,6 +397,7 @@ def run(tier: str) -> int:
         "effective segment length re-derived in the harness: min(configured, max_packet_len - header - 4 byte offset - 2 byte CRC)",
         "EOF condition code is excluded from the parse-back comparison (spacepackets 0.26.1 EofPdu.unpack bug, outside this repository)",
         "large-file (64 bit size) transfers are exercised as prefix runs only (Metadata and the first three File Data PDUs of a 2^32+5 byte file served by a filestore wrapper)",
+        "flaky-read worlds: a filestore read_data / calculate_checksum call that raises PermissionError once may surface as an exception of that state-machine call; the stream must resume without gap or repetition",
     ])
     cfgs = configs(tier)
     worlds = [C07World(**kw) for kw in cfgs]
@@ -324,4 +409,9 @@ def run(tier: str) -> int:
              for mode, crc, (seg, mpl), (ws, sw) in itertools.product(("unack", "ack"), (False, True), ((None, 40), (5, 64), (None, 64)), ((2, 2), (1, 1), (8, 4)))]
     run_.add_all(explore_many(large, procs=NPROC, check_cycles=False, validate_stride=2, validate_terminals=1, n_samples=1))
     run_.bounds["large_file_prefix_runs"] = len(large)
+    # one failing filestore read (file data or checksum) at any point of the transfer
+    flaky = [C07Flaky(mode=mode, closure=(mode == "unack"), size=size, seg=2, cks=cks, read_faults=nf)
+             for mode, size, cks, nf in itertools.product(("unack", "ack"), (1, 4, 5), ("crc32", "mod"), (1, 2) if tier == "thorough" else (1,))]
+    run_.add_all(explore_many(flaky, procs=NPROC, cycle_clause=(P, "C07.cycle"), validate_stride=5, validate_terminals=2, n_samples=1))
+    run_.bounds["flaky_read_worlds"] = len(flaky)
     return run_.finish(rule="one complete run graph per configuration (tick until done; ACK(EOF) / Finished offered when awaited); per-PDU oracle re-derived from the configuration")
